@@ -52,6 +52,9 @@ static void ep_mul_glv_imp(ep_t r, const ep_t p, const bn_t k) {
 	bn_null(k1);
 	ep_null(q);
 
+	for (i = 0; i < (1 << (RLC_WIDTH - 2)); i++) {
+		ep_null(t[i]);
+	}
 	RLC_TRY {
 		bn_new(n);
 		bn_new(m);
@@ -59,7 +62,6 @@ static void ep_mul_glv_imp(ep_t r, const ep_t p, const bn_t k) {
 		bn_new(k1);
 		ep_new(q);
 		for (i = 0; i < (1 << (RLC_WIDTH - 2)); i++) {
-			ep_null(t[i]);
 			ep_new(t[i]);
 		}
 
@@ -144,12 +146,14 @@ static void ep_mul_naf_imp(ep_t r, const ep_t p, const bn_t k) {
 	bn_null(n);
 	bn_null(m);
 
+	for (int i = 0; i < (1 << (RLC_WIDTH - 2)); i++) {
+		ep_null(t[i]);
+	}
 	RLC_TRY {
 		bn_new(n);
 		bn_new(m);
 		/* Prepare the precomputation table. */
 		for (int i = 0; i < (1 << (RLC_WIDTH - 2)); i++) {
-			ep_null(t[i]);
 			ep_new(t[i]);
 		}
 
@@ -208,6 +212,9 @@ static void ep_mul_reg_glv(ep_t r, const ep_t p, const bn_t k) {
 	ep_null(u);
 	ep_null(w);
 
+	for (size_t i = 0; i < (1 << (RLC_WIDTH - 2)); i++) {
+		ep_null(t[i]);
+	}
 	RLC_TRY {
 		bn_new(n);
 		bn_new(m[0]);
@@ -217,7 +224,6 @@ static void ep_mul_reg_glv(ep_t r, const ep_t p, const bn_t k) {
 		ep_new(w);
 
 		for (size_t i = 0; i < (1 << (RLC_WIDTH - 2)); i++) {
-			ep_null(t[i]);
 			ep_new(t[i]);
 		}
 
@@ -329,6 +335,9 @@ static void ep_mul_reg_imp(ep_t r, const ep_t p, const bn_t k) {
 	bn_null(m);
 	bn_null(_k);
 
+	for (i = 0; i < (1 << (RLC_WIDTH - 2)); i++) {
+		ep_null(t[i]);
+	}
 	RLC_TRY {
 		bn_new(m);
 		bn_new(_k);
@@ -336,7 +345,6 @@ static void ep_mul_reg_imp(ep_t r, const ep_t p, const bn_t k) {
 		ep_new(v);
 		/* Prepare the precomputation table. */
 		for (i = 0; i < (1 << (RLC_WIDTH - 2)); i++) {
-			ep_null(t[i]);
 			ep_new(t[i]);
 		}
 		/* Compute the precomputation table. */
@@ -487,11 +495,13 @@ void ep_mul_slide(ep_t r, const ep_t p, const bn_t k) {
 	bn_null(n);
 	bn_null(m);
 
+	for (size_t i = 0; i < (1 << (RLC_WIDTH - 1)); i ++) {
+		ep_null(t[i]);
+	}
 	RLC_TRY {
 		bn_new(n);
 		bn_new(m);
 		for (size_t i = 0; i < (1 << (RLC_WIDTH - 1)); i ++) {
-			ep_null(t[i]);
 			ep_new(t[i]);
 		}
 		ep_new(q);
